@@ -46,9 +46,11 @@ def suites(tier: str, seed: int) -> List[Suite]:
     if tier == "replay":
         return [site, hist]
     if tier == "quick":
-        plan = [("valid", "small", 10), ("valid", "medium", 30), ("valid", "deep", 10)]
+        plan = [("valid", "small", 10), ("valid", "medium", 30), ("valid", "deep", 10), ("valid", "small:ws", 4),
+                ("valid", "medium:wsrm", 3)]
     else:
-        plan = [("valid", "small", 400), ("valid", "medium", 1200), ("valid", "deep", 400)]
+        plan = [("valid", "small", 400), ("valid", "medium", 1200), ("valid", "deep", 400), ("valid", "small:ws", 100),
+                ("valid", "medium:wsrm", 100)]
     site.cases = SC.gen_site_cases("C14", seed, plan)
     # several generations in one process (edits, a larger max_servings and then a smaller one again): the link checker
     # runs on every generation - nothing of an earlier build may be linked from a later one
